@@ -9,6 +9,11 @@ Out(t) == Wild("out", <<t>>)
 In(t) == Wild("in", <<t>>)
 Patterns == {vX, vY, vZ, A(vX), A(vY), A(vZ), B(vX), B(vY), D(vX, vX), D(vX, vY), D(vY, vX), D(IntT, vX), D(vX, Str),
              A(Out(vX)), A(In(vX)), B(Out(vY)), D(Out(vX), vX), D(vX, In(vX)), A(A(vX)), A(B(vY)), B(A(Out(vX))), A(Star), CcT, A(IntT),
-             D(vX, vZ), A(A(Out(vY)))}
-EmitU == Good => PrintT(ToJson([id |-> p, ct |-> Table(p), order |-> Order, u |-> SetToSeq(Universe(Table(p), UDepth)), ps |-> SetToSeq(Patterns)]))
+             D(vX, vZ), A(A(Out(vY))), D(vY, vY), D(vZ, vZ), D(vY, Out(vY)), B(B(vY))}
+\* targets that are, or contain, type variables of the surrounding scope (S : Number, R, Q : Int)
+tS == Var("S", <<Num>>)
+tR == Var("R", <<>>)
+tQ == Var("Q", <<IntT>>)
+VarTargets == {tS, tR, tQ, A(tS), A(tR), B(tQ), D(tS, tQ), D(tR, tR), A(Out(tS))}
+EmitU == Good => PrintT(ToJson([id |-> p, ct |-> Table(p), order |-> Order, u |-> SetToSeq(Universe(Table(p), UDepth) \cup {t \in VarTargets : WF(Table(p), t)}), ps |-> SetToSeq(Patterns)]))
 =============================================================================
